@@ -429,7 +429,13 @@ class TDMProgram(Program):
 
         if self.space_unrolled_circuit is not None:
             if self._num_added_subsystems > 0:
-                self._delete_subsystems(self.register[-self._num_added_subsystems :])
+                # undo the creation of the subsystems that were added for the space-unrolled
+                # circuit (only marking them as deleted would make the next call of
+                # ``space_unroll`` continue the numbering after them)
+                for regref in self.register[-self._num_added_subsystems :]:
+                    regref.active = False
+                    del self.reg_refs[regref.ind]
+                    self.unused_indices.discard(regref.ind)
                 self.init_num_subsystems -= self._num_added_subsystems
                 self._num_added_subsystems = 0
 
